@@ -40,6 +40,7 @@ class Ref:
     self.iteration_trace = {}
     self.iter_cache = {}
     self.iterations_override = {}
+    self.scope = frozenset()
 
   # ------------------------------------------------------------ dependency analysis
   def _deps(self, pred):
@@ -237,7 +238,18 @@ class Ref:
     items = list(extra)
     if r.body is not None:
       items.append(self.norm(r.body))
-    sols, _ = self.solve(Conj(items), [(True, {})], frozenset())
+    head_vars = set()
+    for a in args:
+      head_vars |= self.outer_free(a, ())
+    for k, v in nargs:
+      head_vars |= self.outer_free(v.e if isinstance(v, Agg) else v, ())
+    if value is not None:
+      head_vars |= self.outer_free(value.e if isinstance(value, Agg) else value, ())
+    self.scope = frozenset(head_vars)
+    try:
+      sols, _ = self.solve(Conj(items), [(True, {})], frozenset())
+    finally:
+      self.scope = frozenset()
     return sols
 
   def head_values(self, r, bind):
@@ -325,6 +337,15 @@ class Ref:
     return has(p)
 
   def needs(self, p, bound):
+    need = self._needs(p, bound)
+    if self.deferred(p):
+      # variables inside aggregating expressions / negations that are visible in the
+      # enclosing scope are correlated, not local: they must be bound first
+      inner = set(variables(p)) - self.outer_free(p, bound)
+      need = set(need) | (inner & self.scope)
+    return need
+
+  def _needs(self, p, bound):
     """variables that must be bound before p can be processed (None = process now)."""
     def free(e):
       return set(variables(e))
@@ -383,6 +404,19 @@ class Ref:
   def solve(self, p, sols, bound):
     if isinstance(p, Conj):
       pending = self.flatten(p)
+      saved_scope = self.scope
+      sib = set()
+      for item in pending:
+        sib |= self.outer_free(item, bound)
+      self.scope = self.scope | sib
+      try:
+        return self._solve_conj(pending, sols, bound)
+      finally:
+        self.scope = saved_scope
+    return self.solve_item(p, sols, bound)
+
+  def _solve_conj(self, pending, sols, bound):
+    if True:
       while pending:
         progressed = False
         for tier in (False, True):
@@ -399,7 +433,6 @@ class Ref:
         if not progressed:
           raise Unsupported('cannot schedule conjuncts %r with %r bound' % (pending, sorted(bound)))
       return sols, bound
-    return self.solve_item(p, sols, bound)
 
   def solve_item(self, p, sols, bound):
     if isinstance(p, Conj):
@@ -569,6 +602,9 @@ class Ref:
       else:
         raise Unsupported('operator ' + e.op)
       return S(v, 'int', OR(a.null, b.null))
+    if isinstance(e, UMinus):
+      a = V.to_S(self.ev(e.e, bind))
+      return S(0 - V._num(a), 'int', a.null)
     if isinstance(e, ListE):
       return L([(True, V.to_S(self.ev(x, bind))) for x in e.items], 'seq')
     if isinstance(e, RecE):
